@@ -133,6 +133,11 @@ def apply(it, fn, args, dest_ty, term, caller, depth, M):
             if isinstance(a, Int):
                 return mkbool(not a.val) if a.kind == "bool" and a.is_conc() else Int(a.w, a.signed, bits=[bv.t_not(x) for x in a.getbits()], kind=a.kind)
 
+    # ------------------------------------------------------------------ log macros: `if lvl <= STATIC_MAX_LEVEL && lvl <= max_level() { log(..) }`
+    # logging is no part of any property; the message arguments ARE evaluated (level tests answer "enabled") so that nothing is skipped
+    if name in ("le", "lt", "ge", "gt") and tr.endswith("PartialOrd") and (fn.get("targs") or [""])[0].startswith("log::Level"):
+        return mkbool(name in ("le", "lt"))
+
     # ------------------------------------------------------------------ vec![a, b, c]: Box::new_uninit + in-place write + box_assume_init_into_vec_unsafe
     if name == "new_uninit" and path.startswith("alloc::boxed::Box") or (name == "new_uninit" and "boxed::Box" in path):
         skeleton = Adt("std::mem::MaybeUninit", 0, [Tup([]), Adt("std::mem::ManuallyDrop", 0, [Adt("std::mem::MaybeDangling", 0, [Opaque("uninit", {"uninit"})])])])
